@@ -3,7 +3,7 @@ CONSTANTS
   NSEG = 2
   NBLK = 2
   R = 2
-  T = 4
+  T = 3
   MAXB = 1
   RF = FALSE
 INVARIANTS NoLivelock
